@@ -27,7 +27,7 @@ RULE = (
     "needs at least one phantom / scoring pair with a strict decrease; distinct = distinct case"
 )
 ASSUMPTIONS = ["bounds below the number of CVRs are outside the property's quantifier", "real identifiers never start with the phantom prefix"]
-REQUIRE_VAC = ["empty_cvr_list_cases", "cases_needing_phantoms", "cases_no_phantom_needed", "strict_decrease_pairs", "phantom_cvr_scored", "phantoms_sampled", "shared_phantom_two_contests"]
+REQUIRE_VAC = ["bounds_unspecified_by_omission", "empty_cvr_list_cases", "cases_needing_phantoms", "cases_no_phantom_needed", "strict_decrease_pairs", "phantom_cvr_scored", "phantoms_sampled", "shared_phantom_two_contests"]
 PLAN = {"quick": 3, "thorough": 5}
 IDS = ["c1", "c2"]
 
@@ -37,7 +37,7 @@ def bounds(tier):
             "scoring populations": "<= 2 cards of the S3 alphabet x 4 assorter kinds", "vendor samples": "all ordered samples of <= 3 from lists of <= 4"}
 
 
-def judge_accounting(styles, cb, sb, use_style, pool, IDS=IDS, np_bounds=False):
+def judge_accounting(styles, cb, sb, use_style, pool, IDS=IDS, np_bounds=False, omit_unspecified=False):
     n = len(styles)
     cvrs = s4.make_cards(styles, list(range(1, n + 1)))
     for c in cvrs:
@@ -51,6 +51,10 @@ def judge_accounting(styles, cb, sb, use_style, pool, IDS=IDS, np_bounds=False):
     cons = s4.make_contests(IDS, {}, cards_per=cards)
     for c in IDS:
         cons[c].cards = cards[c]
+        if omit_unspecified and cards[c] is None:
+            # "unspecified" the other way: a contest built without any cards entry (the constructor's own default)
+            d = {k_: v_ for k_, v_ in cons[c].__dict__.items() if k_ not in ("cards", "assertions")}
+            cons[c] = Contest.from_dict(d)
     audit = s4.audit_obj(max_cards, use_style)
     out = []
     try:
@@ -213,6 +217,14 @@ def run_shard(sh, rec):
                                     rec.vac("shared_phantom_two_contests")
                             for key, what in v:
                                 rec.violate(key, what, {"kind": "acct", "styles": [list(s) for s in styles], "cb": list(cb), "sb": sb, "use_style": use_style, "pool": pool, "ids": ids})
+                            if use_style and not pool and any(b is None for b in cb):
+                                v3, _ = judge_accounting(styles, cb, sb, use_style, pool, ids, omit_unspecified=True)
+                                rec.trans()
+                                rec.evals()
+                                rec.vac("bounds_unspecified_by_omission")
+                                for key, what in v3:
+                                    rec.violate(key + "|cards-omitted", what + " [contest built without a cards entry]",
+                                                {"kind": "acct", "styles": [list(s) for s in styles], "cb": list(cb), "sb": sb, "use_style": use_style, "pool": pool, "ids": ids, "omit": True})
                             if use_style and not pool and any(b is not None for b in cb):
                                 v2, info2 = judge_accounting(styles, cb, sb, use_style, pool, ids, np_bounds=True)
                                 rec.trans()
@@ -304,7 +316,10 @@ def explore(tier, seed):
 
 def run_case(case):
     if case["kind"] == "acct":
-        v = judge_accounting([tuple(s) for s in case["styles"]], tuple(case["cb"]), case["sb"], case["use_style"], case["pool"], case.get("ids", IDS), bool(case.get("np_bounds")))[0]
+        v = judge_accounting([tuple(s) for s in case["styles"]], tuple(case["cb"]), case["sb"], case["use_style"], case["pool"], case.get("ids", IDS), bool(case.get("np_bounds")),
+                             bool(case.get("omit")))[0]
+        if case.get("omit"):
+            return [(k + "|cards-omitted", w) for k, w in v]
         return [(k + "|numpy-bounds", w) for k, w in v] if case.get("np_bounds") else v
     if case["kind"] == "score":
         return judge_scoring(case["akind"], [tuple(c) for c in case["cards"]], case["style"])[0]
